@@ -16,7 +16,7 @@ import time
 VERIF = os.path.dirname(os.path.dirname(os.path.abspath(__file__)))
 sys.path.insert(0, VERIF)
 
-CONTRACT_MODULES = ["deps", "stats_tally"]
+CONTRACT_MODULES = ["deps", "stats_tally", "stats_weighted"]
 
 _cache = {}
 
@@ -54,6 +54,11 @@ def units_for(prop, reg, table):
         classes = c.for_classes or [q.split(".")[0] if "." in q else None]
         for cl in classes:
             out.append(("function", q, cl))
+    seenv = set()
+    for (q, cl), c in reg.variants.items():
+        if prop in c.props and (q, cl) not in seenv:
+            seenv.add((q, cl))
+            out.append(("function", q, cl))
     for n, l in reg.lemmas.items():
         if prop in l.props:
             out.append(("lemma", n, None))
@@ -69,7 +74,7 @@ def run_unit(job):
     from pyvc import verify
     try:
         if kind == "function":
-            c = reg.contracts[qual]
+            c = reg.contract_for(qual, cls)
             saved = list(c.requires)
             if extra:
                 c.requires = saved + list(extra)
